@@ -1,6 +1,7 @@
 (** C14: distance matrices and length-threshold clusters are exact.
     Statements about the model Model/Matrix.v (ToDistanceMatrix / pathLengths,
-    AvgDistanceMatrix), for all trees; proofs in Proofs/{MatrixWalk,MatrixCells,MatrixMain}.v.
+    AvgDistanceMatrix, CutEdgesMaxLength / cutEdgesMaxLengthRecur / TipBag), for all trees;
+    proofs in Proofs/{MatrixWalk,MatrixCells,MatrixMain,CutBase,CutSem,CutSpec}.v.
     Vocabulary: Spec/Obs.v ([leaves]; [pairdists w t] = one entry (a, b, sum of [w] over the
     path) for every ordered pair of distinct leaves) and Spec/Unrooted.v ([dists_equiv] = same
     multiset of entries up to Qeq).  [good t]: well-formed, at least two neighbours at the
@@ -8,7 +9,8 @@
     [cell m t a b] is the cell of the matrix in the row of tip [a] and the column of tip [b]. *)
 From Coq Require Import String ZArith QArith Bool Arith List Permutation Sorted.
 From GT Require Import Base.UTree Spec.Obs Model.Reroot Spec.Unrooted
-     Proofs.RerootBase Model.Matrix Proofs.MatrixWalk Proofs.MatrixCells Proofs.MatrixMain.
+     Proofs.RerootBase Model.Matrix Proofs.MatrixWalk Proofs.MatrixCells Proofs.MatrixMain
+     Proofs.CutBase Proofs.CutSem Proofs.CutSpec.
 Import ListNotations.
 Local Close Scope Q_scope.
 
@@ -114,3 +116,44 @@ Example C14_example_matrix :
    [[0; 2; 5#2; 5#2]; [2; 0; 5#2; 5#2]; [5#2; 5#2; 0; 2]; [5#2; 5#2; 2; 0]]%Q).
 Proof. exact c14_tree_matrix. Qed.
 Print Assumptions C14_example_matrix.
+
+(** * cutting branches at a length threshold *)
+(** [comp_down maxlen v]: the tips reached from [v] going down through branches shorter than
+    the threshold; [tops_below maxlen t]: the nodes below [t] entered through a branch that is
+    not shorter than the threshold.  The pieces of the tree without its long branches are
+    exactly the sets of nodes reached downwards from the root and from these nodes.
+    The bags returned by the cut are (each as a TipBag: sorted, without repetition, same
+    members) groups of tips such that: every tip is in exactly one group, and every group is
+    the set of tips of one piece. *)
+Theorem C14_cut_is_the_partition :
+  forall maxlen t, wf t = true ->
+    exists gs, cut maxlen t = map bag_of gs /\
+      Permutation (concat gs) (tip_names t) /\
+      forall g, In g gs ->
+        exists v, In v (t :: tops_below maxlen t) /\ Permutation g (comp_down maxlen v).
+Proof. exact cut_correct. Qed.
+Print Assumptions C14_cut_is_the_partition.
+
+Theorem C14_bag_members : forall y l, In y (bag_of l) <-> In y l.
+Proof. exact bag_of_In. Qed.
+Print Assumptions C14_bag_members.
+
+(** the groups in the order of the code, without ids, visited array or continuations *)
+Theorem C14_cut_groups_in_order :
+  forall maxlen t, wf t = true -> cut maxlen t = map bag_of (sgroups maxlen t false).
+Proof. exact cut_sgroups. Qed.
+Print Assumptions C14_cut_groups_in_order.
+
+Theorem C14_groups_partition_tips :
+  forall maxlen t, wf t = true -> Permutation (concat (sgroups maxlen t false)) (tipnames t).
+Proof. exact sgroups_partition. Qed.
+Print Assumptions C14_groups_partition_tips.
+
+Example C14_example_cut :
+  cut 3%Q (UNode "" [] [Some (mkE 3 (1#2) nilv [], UNode "" [] [None; Some (mkE 1 nilv nilv [], UNode "a" [] [None]);
+                                                                 Some (mkE 2 nilv nilv [], UNode "b" [] [None])]);
+                        Some (mkE 4 nilv nilv [], UNode "c" [] [None]);
+                        Some (mkE nilv nilv nilv [], UNode "d" [] [None])]%string)
+  = [["a"; "b"]; ["c"]; ["d"]]%string.
+Proof. exact cut_example. Qed.
+Print Assumptions C14_example_cut.
